@@ -788,6 +788,24 @@ def roundtrip_case(kind, vals, acc, detail=None):
     if bits2 != bits:
         acc.violation(f"{kind.name}:second_encode_differs", {**case, "first": got, "second": bits2.to01()},
                       "from_bits(as_bits()).as_bits() != as_bits()")
+    # the caller re-uses the buffer it parsed from: the parsed PDU owns its content
+    try:
+        src = bitarray(got)
+        back2 = kind.parse(src)
+        src.invert()
+        if back2.as_bits() != bits2 or kind.read(back2) != rd:
+            acc.violation(f"{kind.name}:parsed_pdu_changes_when_caller_reuses_the_buffer_it_was_parsed_from", case,
+                          "a PDU parsed from a bitarray serialises / reads differently once the caller has overwritten that bitarray")
+        if hasattr(type(obj), "from_bytes") and hasattr(obj, "as_bytes"):
+            srcb = bytearray(bitarray(got + "0" * (-len(got) % 8)).tobytes())
+            back3 = type(obj).from_bytes(srcb)
+            want3 = back3.as_bits().to01()
+            for i_ in range(len(srcb)):
+                srcb[i_] ^= 0xFF
+            if back3.as_bits().to01() != want3:
+                acc.violation(f"{kind.name}:parsed_pdu_changes_when_caller_reuses_the_buffer_it_was_parsed_from", {**case, "parsed_with": "from_bytes(bytearray)"})
+    except Exception as e:  # noqa: BLE001
+        acc.violation(f"{kind.name}:exception_on_decode_from_reused_buffer:" + exc_sig(e), {**case, "bits": got}, repr(e))
     # byte interface of the same PDU (CSBK, data header, full LC, UDP/IPv4): same bits, zero padded to octets
     bytes_bad = False
     if bits2 == bits and hasattr(obj, "as_bytes") and hasattr(type(obj), "from_bytes"):  # (a lossy bit round trip is already reported)
